@@ -71,6 +71,11 @@ fn sampled_flips(total: usize, n: usize, stride: usize, seed: u64) -> Vec<Edit> 
 }
 
 #[derive(Debug, Clone, Serialize, Deserialize)]
+struct IntactCase {
+    art: String,
+}
+
+#[derive(Debug, Clone, Serialize, Deserialize)]
 struct EncPbt {
     art: String,
     region: EncRegion,
@@ -118,7 +123,13 @@ struct V1Pbt {
 }
 
 fn names(v: &[&'static str]) -> impl Strategy<Value = String> + use<> {
-    proptest::sample::select(v.iter().map(|s| (*s).to_string()).collect::<Vec<_>>())
+    // an empty list (all artifacts of a kind failed their self-check: infrastructure trouble
+    // already reported) still needs a value; the placeholder makes every case vacuous
+    let mut l = v.iter().map(|s| (*s).to_string()).collect::<Vec<_>>();
+    if l.is_empty() {
+        l.push("none".into());
+    }
+    proptest::sample::select(l)
 }
 
 /// Responses of the real server code for every V1 endpoint.
@@ -195,11 +206,28 @@ fn main() {
             Ok(_) => {
                 sizes.insert(n.to_string(), serde_json::json!({"protected_bytes": total_of(n, EncRegion::Pages)}));
             }
+            // reported as a failure by the section below
+            Err(art::ArtErr::WeakerThanDocumented(_)) => {}
             Err(e) => ck.infra(format!("artifact {n}: {e}")),
         }
     }
     ck.extra("artifacts", sizes.into());
     let ok = |n: &str| art::get(n).is_ok();
+
+    // the intact artifacts themselves: stored hash = documented hash (reference), loader accepts
+    ck.run(Section::enumerate(
+        "intact-artifacts",
+        "every artifact used below, un-mutated: the stored hashes equal the documented hash computed with the reference MD5 / lookup3, and the real loader accepts the file",
+        || Box::new(art::all_names().into_iter().map(|n| IntactCase { art: n.to_string() })),
+        |c: &IntactCase| match art::get(&c.art) {
+            Ok(_) => Verdict::pass().class("accepted-and-reference-consistent"),
+            Err(art::ArtErr::WeakerThanDocumented(m)) => Verdict::fail(
+                format!("C07:{}:producer-and-loader-agree-on-a-weaker-hash-than-documented", c.art.split(':').next().unwrap_or("?")),
+                format!("{}: {m}", c.art),
+            ),
+            Err(_) => Verdict::pass().class("VACUOUS"),
+        },
+    ));
 
     // ------------------------------------------------------------ encoding
     if ok(art::ENC_BUILT) {
